@@ -28,7 +28,7 @@ ASSUMPTIONS = [
     "type-checker reading: Any; None; bool; int (bool is a subclass); float accepts int (PEP 484 tower); str; List[T]; Union; classes by isinstance; NotPassed only under Maybe",
     "defaults that ref6 does not judge valid for their own schema are removed from the generated recipe (the property quantifies over valid defaults)",
 ]
-BUDGET = {"quick": 260, "thorough": 3500}
+BUDGET = {"quick": 480, "thorough": 4500}
 
 observe.register_formats()
 _DEV = ref6.Opts(int_is_int=True, formats=sg.FORMAT_PREDICATES, waiver=True)
